@@ -3,9 +3,17 @@
 open C20_model
 open Conv
 
-let path_of_string s = if s = "<empty>" then [] else List.init (String.length s) (fun i -> n_of_int (Char.code s.[i]))
-let string_of_path p = String.concat "" (List.map (fun c -> String.make 1 (Char.chr (int_of_n c))) p)
-let ns_of_sx s = List.map (fun x -> n_of_int (int_of_sx x)) (list_of_sx s)
+(* bytes and paths are shared: one value per byte, one list per distinct path string *)
+let byte_n = Array.init 256 n_of_int
+let n_of_byte i = if i >= 0 && i < 256 then byte_n.(i) else n_of_int i
+let path_memo : (string, n list) Hashtbl.t = Hashtbl.create 4096
+let path_of_string s =
+  if s = "<empty>" then [] else
+  match Hashtbl.find_opt path_memo s with
+  | Some p -> p
+  | None -> let p = List.init (String.length s) (fun i -> byte_n.(Char.code s.[i])) in Hashtbl.replace path_memo s p; p
+let string_of_path p = let b = Buffer.create 32 in List.iter (fun c -> Buffer.add_char b (Char.chr (int_of_n c))) p; Buffer.contents b
+let ns_of_sx s = List.map (fun x -> n_of_byte (int_of_sx x)) (list_of_sx s)
 
 let entry_of_sx s =
   match args s with
@@ -33,7 +41,7 @@ let checksum (d : n list) =
    of stand-ins is equality of length and of both checksums. *)
 let data_of_sx = function
   | L [A "big"; ln; c1; c2] -> [n_of_int (256 + int_of_sx ln); n_of_int (int_of_sx c1); n_of_int (int_of_sx c2)]
-  | s -> List.map (fun x -> n_of_int (int_of_sx x)) (list_of_sx s)
+  | s -> ns_of_sx s
 let is_standin = function x :: _ when int_of_n x >= 256 -> true | _ -> false
 let dlen d = match d with x :: _ when int_of_n x >= 256 -> int_of_n x - 256 | _ -> List.length d
 let dsum d = match d with x :: c1 :: _ when int_of_n x >= 256 -> int_of_n c1 | _ -> checksum d
@@ -43,53 +51,82 @@ let show_data d = if is_standin d then Printf.sprintf "%d bytes (checksum %d)" (
    (no path reported twice; every reported change is the expected change of its path; every path whose restricted
    entries differ is reported), and expected f prev cur p only looks at the first entry of path p in each tree.  So
    for any partition of the set of paths, changes_ok holds of the whole iff it holds of every class (trees and change
-   list restricted to the class).  Big steps are judged class by class, the classes being the residues of a hash
-   of the path; small steps (everything but the scale-tree stream) are judged in one piece. *)
-let bucket_limit = 600
-let path_hash (p : n list) = List.fold_left (fun a c -> (a * 131 + int_of_n c) land 0x3fffffff) 7 p
+   list restricted to the class, order kept).  Big steps (more than 600 entries in the two trees together: the
+   scale-tree stream) are judged path by path - the finest partition -, everything else in one piece. *)
+let big_limit = 600
 let cpath_of c = match c.c_to, c.c_from with Some e, _ -> e.e_path | None, Some e -> e.e_path | _ -> []
+let by_path prev cur cs =
+  let t = Hashtbl.create 4096 in
+  let cell key = match Hashtbl.find_opt t key with Some c -> c | None -> let c = (ref [], ref [], ref []) in Hashtbl.replace t key c; c in
+  List.iter (fun e -> let (a, _, _) = cell (string_of_path e.e_path) in a := e :: !a) (List.rev prev);
+  List.iter (fun e -> let (_, b, _) = cell (string_of_path e.e_path) in b := e :: !b) (List.rev cur);
+  List.iter (fun c -> let (_, _, x) = cell (string_of_path (cpath_of c)) in x := c :: !x) (List.rev cs);
+  t
 let changes_ok_big f prev cur cs =
-  let n = List.length prev + List.length cur in
-  if n <= bucket_limit then changes_ok f prev cur cs
-  else begin
-    let k = 1 + n / 64 in
-    let bp = Array.make k [] and bc = Array.make k [] and bx = Array.make k [] in
-    let put a key x = let i = path_hash key mod k in a.(i) <- x :: a.(i) in
-    List.iter (fun e -> put bp e.e_path e) (List.rev prev);
-    List.iter (fun e -> put bc e.e_path e) (List.rev cur);
-    List.iter (fun c -> put bx (cpath_of c) c) (List.rev cs);
-    let ok = ref true in
-    for i = 0 to k - 1 do if !ok && not (changes_ok f bp.(i) bc.(i) bx.(i)) then ok := false done;
-    !ok
-  end
+  if List.length prev + List.length cur <= big_limit then changes_ok f prev cur cs
+  else Hashtbl.fold (fun _ (a, b, x) ok -> ok && changes_ok f !a !b !x) (by_path prev cur cs) true
 let tree_wfb_big t =
-  let n = List.length t in
-  if n <= bucket_limit then tree_wfb t
-  else begin
-    let k = 1 + n / 64 in
-    let b = Array.make k [] in
-    List.iter (fun e -> let i = path_hash e.e_path mod k in b.(i) <- e :: b.(i)) (List.rev t);
-    Array.for_all tree_wfb b
-  end
+  if List.length t <= big_limit then tree_wfb t
+  else Hashtbl.fold (fun _ (a, _, _) ok -> ok && tree_wfb !a) (by_path t [] []) true
 
 let sub_mode = 0o160000
 
-(* at most one MISMATCH line per case and 200 per run, at most three PROPFAIL lines per case and 1500 per
-   run (all are counted): the orchestration looks up the case lines of the first 2000 findings only *)
-let mm_case = ref (-1) and mm_printed = ref 0
-let mismatch id what =
-  if !mm_case = id || !mm_printed >= 200 then begin incr n_mismatch; count "mismatch_lines_suppressed" end
-  else begin mm_case := id; incr mm_printed; Conv.mismatch id what end
-let pf_case = ref (-1) and pf_in_case = ref 0 and pf_printed = ref 0
-let propfail id what =
-  if !pf_case <> id then begin pf_case := id; pf_in_case := 0 end;
-  if !pf_in_case >= 3 || !pf_printed >= 1500 then begin incr n_propfail; count "propfail_lines_suppressed" end
-  else begin incr pf_in_case; incr pf_printed; Conv.propfail id what end
-
 let key_of_change c = (string_of_path (match c.c_to, c.c_from with Some e, _ -> e.e_path | None, Some e -> e.e_path | _ -> []), show_change c)
 
+(* The lines of the scale streams are several megabytes long: a parser that reads the line in place (no token list)
+   and shares the atoms of byte values; otherwise Conv.iter_cases. *)
+let small_atoms = Array.init 1000 (fun i -> A (string_of_int i))
+let parse_line (s : string) : sx =
+  let n = String.length s in
+  let pos = ref 0 in
+  let is_space c = c = ' ' || c = '\t' || c = '\n' || c = '\r' in
+  let rec parse () =
+    while !pos < n && is_space s.[!pos] do incr pos done;
+    if !pos >= n then failwith "sx: unexpected end";
+    if s.[!pos] = '(' then begin
+      incr pos;
+      let items = ref [] in
+      let fin = ref false in
+      while not !fin do
+        while !pos < n && is_space s.[!pos] do incr pos done;
+        if !pos >= n then failwith "sx: missing )";
+        if s.[!pos] = ')' then begin incr pos; fin := true end
+        else items := parse () :: !items
+      done;
+      L (List.rev !items)
+    end else if s.[!pos] = ')' then failwith "sx: unexpected )"
+    else begin
+      let st = !pos in
+      while !pos < n && not (is_space s.[!pos]) && s.[!pos] <> '(' && s.[!pos] <> ')' do incr pos done;
+      let len = !pos - st in
+      let v = ref 0 and digits = ref (len <= 3) in
+      if !digits then for i = st to !pos - 1 do
+        let c = s.[i] in if c >= '0' && c <= '9' then v := !v * 10 + Char.code c - 48 else digits := false done;
+      if !digits && (len = 1 || s.[st] <> '0') then small_atoms.(!v) else A (String.sub s st len)
+    end in
+  parse ()
+
+let iter_cases (f : int -> sx -> unit) =
+  (try while true do
+     let line = input_line stdin in
+     if String.length line > 5 && String.sub line 0 5 = "(case" then begin
+       incr n_cases;
+       (try
+          let s = parse_line line in
+          let id = match s with L (_ :: i :: _) -> int_of_sx i | _ -> -1 in
+          (try f id s with
+           | Failure m -> mismatch id ("driver-failure " ^ m)
+           | Stack_overflow -> mismatch id "driver-stack-overflow"
+           | Not_found -> mismatch id "driver-not-found")
+        with Failure m -> mismatch (-1) ("driver-failure " ^ m))
+     end
+   done with End_of_file -> ());
+  finish ()
+
 let () =
+  Gc.set { (Gc.get ()) with Gc.minor_heap_size = 8 * 1024 * 1024; Gc.space_overhead = 300 };
   iter_cases (fun id c ->
+    Hashtbl.reset path_memo;
     let kind = atom (List.hd (args (field "kind" c))) in
     let obs = field "obs" c in
     (* ---- tables *)
@@ -202,6 +239,7 @@ let () =
           let br = List.nth !bs b in
           let tdk = atom (List.hd (args (field "td" st))) in
           let model = td_consume f br.br_td cm dt in
+          let bmodel_of_step = ref None in
           (* ---- property: the parent check, judged against the commit that the branch really consumed last *)
           let must_refuse = (match List.nth !last b with Some p -> not (List.mem p parents.(ci)) | None -> false) in
           ignore pc;
@@ -267,6 +305,7 @@ let () =
             (* ---- BlobCache *)
             let bck = atom (List.hd (args (field "bc" st))) in
             let bmodel = bc_consume (benv ci) br.br_bc gcs in
+            (match model with Ok (_, mcs) when mcs = gcs -> bmodel_of_step := Some bmodel | _ -> ());
             let sides = List.concat_map (fun ch -> (match ch.c_from with Some e -> [e] | None -> []) @ (match ch.c_to with Some e -> [e] | None -> [])) gcs in
             let integral = List.for_all (fun e -> int_of_n e.e_mode = sub_mode || Hashtbl.mem store (int_of_n e.e_hash)) sides in
             if not integral then count "outside_domain_missing_blob";
@@ -314,7 +353,16 @@ let () =
                  (match bmodel with Panic -> () | _ -> mismatch id (here ^ " BlobCache: impl=panic, model=" ^ (match bmodel with Ok _ -> "ok" | _ -> "err")))
              | k -> failwith ("bc kind " ^ k))
           end else if tdk = "panic" then mismatch id (here ^ " TreeDiff panicked");
-          bs := run_op f !bs (OConsume (nat_of_int b, cm, dt, benv ci));
+          (* the state after the step: run_op; for a big tree the same composition from the results computed above
+             (run_op would evaluate td_consume and bc_consume, which is quadratic, a second time) *)
+          if List.length cm.cm_tree <= big_limit || !bmodel_of_step = None then
+            bs := run_op f !bs (OConsume (nat_of_int b, cm, dt, benv ci))
+          else begin
+            match model, !bmodel_of_step with
+            | Ok (s', _), Some (Ok (nw, _)) -> bs := List.mapi (fun i x -> if i = b then { br_td = s'; br_bc = nw } else x) !bs
+            | Ok (s', _), Some _ -> bs := List.mapi (fun i x -> if i = b then { br_td = s'; br_bc = x.br_bc } else x) !bs
+            | _ -> ()
+          end;
           compare_snapshot here (field "all" st)
       | _ -> failwith ("step shape " ^ string_of_sx o)) (List.combine ops steps);
     count ("kind_" ^ kind))
